@@ -46,6 +46,7 @@ func (cx *Ctx) runC07() {
 	cx.Budgets.Ticks = 20_000_000
 	cx.Budgets.Frame = 2_000_000
 	known := cx.replayKnown()
+	corpusN := cx.runCorpus()
 
 	r := rng{s: mix(cx.Seed, 0xC07)}
 	jobs := make([]*spec.Job, nSpecs)
@@ -198,6 +199,7 @@ func (cx *Ctx) runC07() {
 		"histories":                  histStats,
 		"real_runtime_adjunct":       realStats,
 		"determinism_selftest":       st,
+		"regression_corpus_specs":     corpusN,
 		"known_findings_confirmed":   known,
 		"violation_keys":             violKeys(cx),
 		"worker_processes_spawned":   spawnedTotal,
